@@ -771,8 +771,11 @@ def run(ctx):
         ctx.samples.append({"type": A.eth_ty(t), "value": repr(vals[-1])[:200]})
     ctx.trusted += ["Coq 8.16.1 kernel + vm_compute", "tools/vlib/c06_gensizes.py (abi_types.py -> Gallina; output compared "
                     "with the real ABIType objects on every generated type each run)", "pyrevm (EVM)",
-                    "eth_abi (cross-check of the spec encoder only)"]
+                    "eth_abi (cross-check of the spec encoder only)",
+                    "tools/vlib/c06_tpl.py / c06_tplx.py (serialise the IR emitted by the real generators as Coq terms)"]
     ctx.assumptions += ["values reach the contract through calldata (canonical encodings), i.e. the C05 decoder is "
                         "assumed correct on canonical input; source locations covered: calldata, memory local, storage",
                         "memory dirtiness is produced by an in-function scoped 0xff-filled array; effectiveness is "
-                        "validated by the zero_pad mutants (see notes/C06.md)"]
+                        "validated by the zero_pad mutants (see notes/C06.md)",
+                        "pre-cancun copies: a staticcall to the identity precompile (address 4) succeeds and copies "
+                        "min(argsLen, retLen) bytes (XEval.identity_call); confirmed on pyrevm by the pre-cancun configurations"]
